@@ -77,8 +77,116 @@ def cases(draw: Any, tier: str) -> dict:
     return {"backend": draw(BACKEND), "sched_seed": draw(SEED), "root": d.pct(80), "script": _items(d, 0, 0, budget)}
 
 
+@st.composite
+def deep_cases(draw: Any) -> dict:
+    """One task nests N contexts (N well beyond what the scripted cases reach) and unwinds them again."""
+    d = D(draw)
+    return {"kind": "deep", "backend": draw(BACKEND), "sched_seed": draw(SEED), "depth": d.pick([20, 33, 40, 65, 70, 90]),
+            "exit": d.pick(["return", "raise"]), "cp": d.bool(), "explicit_every": d.pick([0, 0, 7])}
+
+
 def strategy(prop: str, tier: str) -> st.SearchStrategy:
-    return cases(tier)
+    # a few per cent of the cases are deep chains ("for all nesting depths")
+    return st.one_of(*([cases(tier)] * 30 + [deep_cases()]))
+
+
+def run_deep(case: dict) -> Outcome:
+    out = Outcome()
+    st_: dict[str, Any] = {"harness": None}
+
+    def disc(bucket: str, msg: str) -> None:
+        out.add("ctxstack", "ctxstack:deep-" + bucket, msg + f" [one task, {case['depth']} nested contexts, unwinding by {case['exit']}]")
+
+    async def main() -> None:
+        from asphalt.core import Context, NoCurrentContext, current_context
+
+        N = case["depth"]
+        chain: list[Any] = []
+
+        def cur() -> Any:
+            try:
+                return current_context()
+            except NoCurrentContext:
+                return None
+
+        def check(where: str) -> bool:
+            want = chain[-1] if chain else None
+            got = cur()
+            if got is not want:
+                disc("current", f"{where}: current_context() is {'None' if got is None else 'level ' + str(chain.index(got) + 1 if got in chain else '?')}"
+                     f", expected {'None' if want is None else 'level ' + str(len(chain))}")
+                return False
+            return True
+
+        async def level(k: int) -> None:
+            parent = chain[-1] if chain else None
+            explicit = case["explicit_every"] and k % case["explicit_every"] == 0 and parent is not None
+            try:
+                c = Context(parent) if explicit else Context()
+            except Exception as exc:
+                disc("create-raised", f"creating the context of level {k} raised {short_exc(exc)}")
+                raise VErr("stop") from None
+            if c.parent is not parent:
+                disc("parent", f"the context of level {k} has parent {c.parent!r}, expected level {k - 1}")
+                raise VErr("stop")
+            try:
+                await c.__aenter__()
+            except Exception as exc:
+                disc("enter-raised", f"entering level {k} raised {short_exc(exc)}")
+                if not check(f"after the failed entry of level {k}"):
+                    pass
+                raise VErr("stop") from None
+            chain.append(c)
+            ok = True
+            try:
+                if not check(f"inside level {k}"):
+                    raise VErr("stop")
+                if case["cp"]:
+                    await anyio.lowlevel.checkpoint()
+                if k < N:
+                    await level(k + 1)
+                elif case["exit"] == "raise":
+                    raise VErr("unwind")
+            except BaseException as exc:
+                ok = False
+                chain.pop()
+                await c.__aexit__(type(exc), exc, exc.__traceback__)
+                if not out.discs:
+                    check(f"after leaving level {k} by an exception")
+                raise
+            if ok:
+                chain.pop()
+                await c.__aexit__(None, None, None)
+                if not out.discs and not check(f"after leaving level {k}"):
+                    raise VErr("stop")
+
+        try:
+            await level(1)
+        except VErr:
+            pass
+
+    async def guarded() -> None:
+        try:
+            await main()
+        except BaseException as exc:
+            for leaf in flatten_exc(exc):
+                if isinstance(leaf, HarnessError) or (isinstance(leaf, Exception) and innermost_is_harness(leaf) and not isinstance(leaf, (VErr, VBase))):
+                    st_["harness"] = leaf
+            raise
+
+    try:
+        run_virtual(case["backend"], guarded, sched_seed=case.get("sched_seed", 0))
+    except Deadlock as exc:
+        disc("deadlock", f"deadlock: {exc}")
+    except BaseException as exc:
+        if st_["harness"] is not None or isinstance(exc, HarnessError):
+            raise HarnessError(f"harness exception inside the run: {short_exc(st_['harness'] or exc)}") from exc
+        if not out.discs:
+            disc("run-raised:" + type(flatten_exc(exc)[0]).__name__, f"run raised {short_exc(exc)}")
+    out.labels = sorted({case["backend"], "deep-chain", f"nest>={min(case['depth'], 64)}"})
+    out.nontrivial = True
+    out.trace = []
+    return out
 
 
 _EMPTY_CTX: list = []
@@ -426,6 +534,8 @@ def _nm(c: Any) -> str:
 
 
 def run_case(case: dict, prop: str) -> Outcome:
+    if case.get("kind") == "deep":
+        return run_deep(case)
     it = Interp(case)
     try:
         run_virtual(case["backend"], it.main, sched_seed=case.get("sched_seed", 0))
@@ -450,6 +560,12 @@ def run_case(case: dict, prop: str) -> Outcome:
 
 
 def shrink_candidates(case: dict):
+    if case.get("kind") == "deep":
+        for key, val in (("cp", False), ("explicit_every", 0), ("backend", "asyncio"), ("sched_seed", 0)):
+            if case.get(key) != val:
+                yield dict(case, **{key: val})
+        return
+
     def variants(items: list):
         for i in range(len(items)):
             yield items[:i] + items[i + 1:]
